@@ -30,7 +30,7 @@ EXPLANATION = ("a: in each forward loop, deleting the pass-edges of a gate (enab
                "rules + the inner loop walks get_rules_by_salience() with slice::iter (no rev) and fetches by that index. "
                "d: decision tables of should_evaluate_rule, can_fire_rule, mark_rule_fired, set_focus, ActivationGroupManager::"
                "{can_fire,mark_fired,reset_cycle} and Rule::is_active_at equal the documented functions.")
-FLOORS = {"forward_loops": 2, "gates_per_loop": 6}
+FLOORS = {"forward_loops": 2, "gates_per_loop": 6, "focus_paths": 4}
 
 AM = "engine::agenda::AgendaManager"
 AG = "engine::agenda::ActivationGroupManager"
@@ -175,6 +175,7 @@ def run(P, R, tier, cfg):
     check_sorts(P, R, [KB + "::add_rule", KB + "::get_rules_by_salience"], "c")
     # d: managers
     _managers(P, R)
+    _focus_invariant(P, R)
 
 
 def _bookkeeping(P, R, L):
@@ -404,3 +405,147 @@ def _report_table(R, f, rows, atom, exp, clause, name, doc):
     if not bad and not weird:
         R.hold(clause, "%s decision table (%d rows) == %s" % (name, len(rows), doc), fn=f)
         R.sample({"clause": clause, "fn": f.name, "rows": [[list(map(list, r[0])), r[1]] for r in rows][:8]})
+
+
+# ---------------------------------------------------------------------- e. focus-stack invariant
+READ_ONLY_VEC = ("len", "last", "is_empty", "iter", "first", "get", "contains", "clone", "deref", "as_slice", "fmt", "index", "eq")
+
+
+def _focus_invariant(P, R):
+    """active_group == top of focus_stack (and the stack is non-empty) at every exit of every function that writes either.
+    Abstract state per acyclic path: (top token, active token, min length); the invariant is assumed at entry."""
+    import re
+    from sa.ir import fmt_named
+    adt = P.adts.get(AM)
+    vdef = adt["variants"][0]["fields"] if adt else []
+    n = 0
+    for f in sorted(P.fns.values(), key=lambda x: x.name):
+        mine = f.impl_self is not None and f.impl_self.endswith("AgendaManager")
+        bev = {}
+        for bb in sorted(f.normal_blocks()):
+            evs = []
+            for s in f.stmts(bb):
+                if not (isinstance(s, list) and len(s) > 4 and s[2] == "="):
+                    continue
+                if A.place_has_field(s[3], "active_group", AM):
+                    sym = f.sym_rvalue(s[4])
+                    if any(x[0] == "call" and x[1].endswith("::last") for x in walk(sym)) and "focus_stack" in fmt_sym(sym):
+                        evs.append(("act", "TOP"))
+                    else:
+                        evs.append(("act", fmt_named(strip(sym))))
+                elif A.place_has_field(s[3], "focus_stack", AM):
+                    evs.append(("stk", "assign"))
+                elif s[4][0] == "agg" and s[4][1] == "adt" and s[4][2].endswith("engine::agenda::AgendaManager"):
+                    vals = {nm: f.sym_operand(op) for nm, op in zip(s[4][4], s[4][3])}
+                    elems = A.vec_macro_elems(f, vals["focus_stack"]) if "focus_stack" in vals else None
+                    evs.append(("new", fmt_named(strip(vals["active_group"])) if "active_group" in vals else "?",
+                                fmt_named(strip(elems[-1])) if elems else None))
+            c = f.call_at(bb)
+            if c is not None and c.args:
+                rs = strip(f.sym_operand(c.args[0]))
+                if rs[0] == "field" and rs[2] == "focus_stack" and rs[3].endswith("AgendaManager"):
+                    nm = c.name.split("::")[-1]
+                    rty = A.place_type(f, c.args[0][1]) if c.args[0][0] in "cm" else None
+                    mut = rty is None or rty.startswith("&mut")
+                    if nm == "push":
+                        evs.append(("push", fmt_named(strip(f.sym_operand(c.args[1])))))
+                    elif nm == "pop":
+                        evs.append(("pop",))
+                    elif nm == "clear":
+                        evs.append(("clear",))
+                    elif nm in READ_ONLY_VEC or not mut:
+                        pass
+                    else:
+                        evs.append(("stk", nm))
+            if evs:
+                bev[bb] = evs
+        if not bev:
+            continue
+        if not mine or (f.impl_trait and not f.impl_trait.endswith("Default")):
+            if f.impl_trait and f.impl_trait.endswith("Clone"):
+                continue
+            R.violate("e", "foreign-writer:%s" % f.name, "%s writes AgendaManager.focus_stack/active_group from outside the manager's own methods" % f.name, f)
+            continue
+        seqs = _focus_paths(f, bev)
+        if seqs is None:
+            R.undecide("e", f.name, "path enumeration capped", f)
+            continue
+        for seq in sorted(seqs):
+            if not any(e[0] in ("push", "pop", "clear", "stk", "act", "new") for e in seq):
+                continue
+            n += 1
+            top, act, minlen, fresh, infeasible = "T0", "T0", 1, 0, False
+            for ev in seq:
+                if ev[0] == "push":
+                    top = ev[1]; minlen += 1
+                elif ev[0] == "pop":
+                    fresh += 1; top = "U%d(after pop)" % fresh; minlen = max(0, minlen - 1)
+                elif ev[0] == "clear":
+                    top = "EMPTY"; minlen = 0
+                elif ev[0] == "stk":
+                    fresh += 1; top = "U%d(after %s)" % (fresh, ev[1]); minlen = 0
+                elif ev[0] == "act":
+                    act = top if ev[1] == "TOP" else ev[1]
+                elif ev[0] == "minlen":
+                    minlen = max(minlen, ev[1])
+                elif ev[0] == "last-none":
+                    if minlen >= 1:
+                        infeasible = True
+                        break
+                    top = "EMPTY"
+                elif ev[0] == "new":
+                    act = ev[1]
+                    top = ev[2] if ev[2] is not None else "U(constructor)"
+                    minlen = 1 if ev[2] is not None else 0
+            if infeasible:
+                continue
+            key = ",".join(e[0] + ("=" + str(e[1]) if len(e) > 1 else "") for e in seq)
+            if top != act or top == "EMPTY":
+                R.violate("e", "focus-invariant:%s:%s" % (f.short_name, key),
+                          "%s can return with active_group = %s while the top of focus_stack is %s (path effects %s): a later set_focus/pop_focus history then resumes a group that should have been dropped, so rules outside the focused group fire" % (f.short_name, act, top, [list(e) for e in seq]), f)
+            else:
+                R.hold("e", "%s: path [%s] keeps active_group == top(focus_stack), stack non-empty" % (f.short_name, key), fn=f)
+    R.count("focus_paths", n)
+    if n < FLOORS["focus_paths"]:
+        R.undecide("e", "floor", "only %d focus-writing paths found, expected >= %d (new, set_focus, pop_focus, clear_focus)" % (n, FLOORS["focus_paths"]))
+
+
+def _focus_paths(f, bev):
+    """path_event_sets plus edge events for `len(focus_stack) > k` guards and the None arm of focus_stack.last()."""
+    import re
+    eev = {}
+    for bb in f.normal_blocks():
+        t = f.term(bb)
+        if t[2] != "switch":
+            continue
+        sw = f.sym_switch(bb)
+        txt = fmt_sym(sw) if sw is not None else ""
+        if "focus_stack" not in txt:
+            continue
+        be = A.bool_edges(f, bb)
+        for (tgt, lab) in f.succ(bb):
+            evs = []
+            if be is not None:
+                pol = (lab == ("sw", "otherwise"))
+                nbt = A.norm_bool(sw, pol)
+                m = re.match(r"^(\d+)\S* < .*::len\(self\.focus_stack\)$", nbt[0])
+                if m and nbt[1] is True:
+                    evs.append(("minlen", int(m.group(1)) + 1))
+                if re.match(r"^.*::is_empty\(self\.focus_stack\)$", nbt[0]) and nbt[1] is False:
+                    evs.append(("minlen", 1))
+            elif "::last(" in txt:
+                ve = A.variant_edges(f, bb) or {}
+                none_t = ve.get("None")
+                if none_t is None and "Some" in ve:
+                    none_t = ve.get(None)
+                if none_t == tgt and not (ve.get("Some") == tgt):
+                    evs.append(("last-none",))
+            if evs:
+                eev[(bb, tgt, lab)] = evs
+    sets, capped = A.path_event_sets(f, bev, eev)
+    if capped:
+        return None
+    out = set()
+    for ex, ss in sets.items():
+        out |= ss
+    return out
